@@ -135,7 +135,7 @@ func (g *c15Gen) action() bool {
 	var stmts []*ast.Node
 	label := ""
 	res := func(e *ast.Node) { stmts = append(stmts, ast.Print(ast.Str("R"), e)) }
-	switch k := g.n(0, 23, "op"); {
+	switch k := g.n(0, 24, "op"); {
 	case k <= 3:
 		stmts = append(stmts, ast.ExprS(ast.Method(a.expr(), "push", g.elem())))
 		label = "push"
@@ -166,6 +166,22 @@ func (g *c15Gen) action() bool {
 	case k <= 16:
 		res(ast.Method(a.expr(), "sort"))
 		label = "sort"
+	case k == 22:
+		// push a value read from a place that does not exist (past the end of another
+		// array, an absent key): the new element is an ordinary null of this array
+		b := g.pickArr("arrmiss")
+		var miss *ast.Node
+		if g.b("misskey") {
+			miss = ast.Mem(ast.Id("o"), "nokey")
+		} else {
+			miss = ast.Idx(b.expr(), ast.Num(fmt.Sprint(arrLen(st, b)+g.n(0, 3, "beyond"))))
+		}
+		stmts = append(stmts, ast.ExprS(ast.Method(a.expr(), "push", miss)))
+		if g.b("thenwrite") {
+			stmts = append(stmts, ast.ExprS(ast.Set(ast.Idx(a.expr(), ast.Un("-", ast.Num("1"))), g.scalarElem())))
+		}
+		label = "push-missing-read"
+		g.last[a.name] = "push"
 	case k == 17:
 		// push returns the array: use the result without storing it anywhere else
 		res(ast.Method(ast.Method(a.expr(), "push", g.scalarElem()), "length"))
@@ -232,9 +248,37 @@ func genC15(t *rapid.T, maxActions int) (*DCase, map[string]bool, int) {
 	return g.program(), g.labels, g.step
 }
 
+// genC15Sort: one long array with many ties (elements whose string forms are
+// equal but which are distinguishable), sorted once: stability only matters
+// beyond the sizes the state machine reaches.
+func genC15Sort(t *rapid.T) *DCase {
+	n := rapid.IntRange(2, 48).Draw(t, "len")
+	pool := []*ast.Node{
+		ast.True(), ast.False(), ast.Null(), ast.Arr(), ast.Obj(), ast.Arr(ast.Num("1")), ast.Obj(ast.KV("k", ast.Num("1"))), ast.Str(""),
+		ast.Num("1"), ast.Str("1"), ast.Num("10"), ast.Str("10"), ast.Num("2"), ast.Str("2"), ast.Str("b"), ast.Str("B"), ast.Num("0"), ast.Un("-", ast.Num("0")),
+		ast.Num("2.5"), ast.Str("2.5"), ast.Str("a"),
+	}
+	allNum := rapid.IntRange(0, 3).Draw(t, "allnum") == 0
+	var items []*ast.Node
+	for k := 0; k < n; k++ {
+		if allNum {
+			items = append(items, rapid.SampledFrom([]*ast.Node{ast.Num("0"), ast.Un("-", ast.Num("0")), ast.Num("1"), ast.Num("2"), ast.Num("1.0"), ast.Num("10"), ast.Un("-", ast.Num("3"))}).Draw(t, "num").Clone())
+		} else {
+			items = append(items, rapid.SampledFrom(pool).Draw(t, "item").Clone())
+		}
+	}
+	set := func(n string, v *ast.Node) *ast.Node { return ast.ExprS(ast.Set(ast.Id(n), v)) }
+	return &DCase{Prog: ast.Prog(ast.Rule("BEGIN", nil, ast.Block(
+		set("a", ast.Arr(items...)),
+		ast.Print(ast.Method(ast.Id("a"), "sort")),
+		ast.Print(ast.Id("a"), ast.Method(ast.Id("a"), "length")),
+		ast.Print(ast.Method(ast.Method(ast.Id("a"), "sort"), "sort")),
+	)))}
+}
+
 func TestC15(t *testing.T) {
 	rec := start(t, "C15", "exploration",
-		"state machine over five arrays (three global variables, $.list inside the document, o.items inside an object), one operation per step reached through the name or path that holds the array: push, pop, popfirst, index read and write (in range, = len, negative in range, before the start, past the end), length, contains, sort, use of push's result, and nested calls (a.push(b.pop()), a.push(b.length()), a.contains(b.popfirst()), a.push(a.pop()), a.push(b.push(1).length()), a[b.length()]) with element values of every kind (0 and -0, 1 and \"1\", containers). Every step prints its result and then every array with its length; expected from refjq's list model. Non-trivial: popfirst followed by push on the same array, a nested call touching two arrays, a sort with ties, a negative index, or >= 8 actions. distinct = distinct program.")
+		"state machine over five arrays (three global variables, $.list inside the document, o.items inside an object), one operation per step reached through the name or path that holds the array: push, pop, popfirst, index read and write (in range, = len, negative in range, before the start, past the end), length, contains, sort, use of push's result, a push of a value read from a place that does not exist followed by a write to that element, and nested calls (a.push(b.pop()), a.push(b.length()), a.contains(b.popfirst()), a.push(a.pop()), a.push(b.push(1).length()), a[b.length()]) with element values of every kind (0 and -0, 1 and \"1\", containers). Every step prints its result and then every array with its length; expected from refjq's list model. A second family sorts arrays of up to 48 elements drawn from a pool full of ties (true / false / null / [] / {} all have the string form \"\"; 1 and \"1\"; 0 and -0). Non-trivial: popfirst followed by push on the same array, a nested call touching two arrays, a sort with ties, a negative index, or >= 8 actions. distinct = distinct program.")
 	defer rec.Finish()
 	rec.Assume("refjq's list model (DESIGN.md 4.8): contains = section 3.6 element by element; sort = stable, numeric iff all numbers, else bytewise by string form")
 	rec.Replayer("list", replayDiff(true))
@@ -247,6 +291,10 @@ func TestC15(t *testing.T) {
 	if evThorough() {
 		maxActions = 60
 	}
+	check(rec, "sort-long-ties", scale(3000, 2000000), func(rt *rapid.T) {
+		c := genC15Sort(rt)
+		runDiff(rec, rt, "list", c, false, func(d *diffResult) bool { return d.Ref.Events["sort-ties"] > 0 }, "sort-long")
+	})
 	check(rec, "list-random", scale(6000, 1200000), func(rt *rapid.T) {
 		c, labels, steps := genC15(rt, maxActions)
 		var ls []string
